@@ -17,27 +17,31 @@ namespace Unimock.Codegen
     the arm calls `f(self, p0, …, pn)`; with `unmock_with=[f(e1, …, ek)]` it calls `f(e1, …, ek)`
     verbatim; the call is awaited iff the method is async (or returns `impl Future`); its value is the
     value of the arm. -/
-theorem C16_unmock_arm_spec (s : MethodShape) (h : isPolonius s.recv = false) :
+theorem C16_unmock_arm_spec (s : MethodShape) :
     (genMethod s).unmock =
       match s.unmock with
       | .none => none
-      | .path p => some (p, "self" :: s.params.map (·.name), s.isAsync || s.rpit)
-      | .listed p args => some (p, args, s.isAsync || s.rpit) := by
-  simp only [genMethod, h, Bool.false_eq_true, ↓reduceIte, fnParam, dotAwait]
+      | .path p => some (p, unmockSelf s.recv :: s.params.map (·.name), s.isAsync || s.rpit)
+      | .listed p args => some (p, args.map (fun a => if a = "self" then unmockSelf s.recv else a), s.isAsync || s.rpit) := by
+  simp only [genMethod, fnParam, dotAwait]
   cases s.unmock <;> rfl
+
+/-- the receiver expression is the mock itself: `self` where the method body still owns it, the surrogate the body moved it
+    into for `&mut self`, that surrogate re-pinned for `Pin<&mut Self>` -/
+theorem C16_unmock_receiver (r : Recv) :
+    unmockSelf r = (match r with | .mutRef => "__self" | .pinMut => "::core::pin::Pin::new(__self)" | _ => "self") := by
+  cases r <;> rfl
 
 /-- without a registered function there is no Unmock arm -/
 theorem C16_no_function_no_arm (s : MethodShape) (h : s.unmock = .none) : (genMethod s).unmock = none := by
   simp only [genMethod, h]
-  split <;> rfl
 
-/-- **C16, partial (known finding).** For `&mut self` and `Pin<&mut Self>` receivers the generated
-    body has *no* Unmock arm even when a function is registered: the continuation falls through to
-    `cont.report(..)`, i.e. `CannotUnmock`. The full statement of C16 ("for all generated trait
-    shapes") therefore fails on these receivers; the model reproduces the code. -/
-theorem C16_unmock_arm_missing_for_mut (s : MethodShape) (h : isPolonius s.recv = true) :
-    (genMethod s).unmock = none := by
-  simp [genMethod, h]
+/-- **C16 for `&mut self` and `Pin<&mut Self>` receivers** (after fix: commit "fix: generate the Unmock arm for `&mut self` and
+    `Pin<&mut Self>` receivers"; formerly the known finding KF-C16-mut-receiver-unmock): a registered function gets its arm like
+    for every other receiver -/
+theorem C16_unmock_arm_present_for_mut (s : MethodShape) (h : isPolonius s.recv = true) (p : String) (hu : s.unmock = .path p) :
+    (genMethod s).unmock = some (p, unmockSelf s.recv :: s.params.map (·.name), s.isAsync || s.rpit) := by
+  simp [genMethod, hu, fnParam, dotAwait]
 
 end Unimock.Codegen
 
